@@ -18,7 +18,7 @@ ID = "C13"
 LEVEL = "exploration"
 EXHAUSTIVE = True
 KINDS = ("numpy", "bytearray")
-GROUPS = ("from_buffer", "from_native", "copy_to_native", "extract", "views", "from_nplike", "xbuffer_scalar")
+GROUPS = ("from_buffer", "from_native", "copy_to_native", "extract", "views", "from_nplike", "xbuffer_scalar", "grow_storage")
 CAPMAX_Q, CAPMAX_T = 12, 20
 N_QUICK = len(KINDS) * (CAPMAX_Q + 1) * len(GROUPS)
 N_THOROUGH = len(KINDS) * (CAPMAX_T + 1) * len(GROUPS)
@@ -26,12 +26,14 @@ T_QUICK, T_THOROUGH = 70, 900
 SHARDS = 16
 DTYPES = ["int8", "uint8", "int16", "uint16", "int32", "uint32", "int64", "uint64", "float32", "float64"]
 SCALARS = [xo.Int8, xo.UInt8, xo.Int16, xo.UInt16, xo.Int32, xo.UInt32, xo.Int64, xo.UInt64, xo.Float32, xo.Float64]
-FLOORS = {"primitive_calls": 60000}
+FLOORS = {"primitive_calls": 60000, "grow_relocations": 3000}
 for _k in KINDS:
     for _p in ("update_from_buffer.post_exact", "update_from_native.post_exact", "update_from_nplike.post_exact",
                "copy_to_native.post_exact", "to_bytearray.post_exact", "to_nplike.post_exact"):
         FLOORS[f"contract:{_k}.{_p}"] = 1000
     FLOORS[f"contract:{_k}.to_native.post_exact"] = 250
+FLOORS["suite:runs"] = 1
+FLOORS["suite:contract:numpy.update_from_buffer.post_exact"] = 500
 RULE = ("exhaustive enumeration of (kind, capacity<=10 quick/16 thorough, offset, length, source offset, "
         "source form/layout, dtype) for update_from_buffer/native/nplike/xbuffer, copy_to_native, to_native, "
         "to_bytearray, to_nplike/to_nparray and the scalar helpers; each call judged by byte-exact contracts "
@@ -266,6 +268,48 @@ G = dict(from_buffer=g_from_buffer, from_native=g_from_native, copy_to_native=g_
          extract=g_extract, views=g_views, from_nplike=g_from_nplike, xbuffer_scalar=g_xbuffer_scalar)
 
 
+def g_grow_storage(w, kind, cap):
+    """grow(): the old contents are moved into fresh native storage.  Every way of tiling the buffer with <= 3
+    packed regions x every subset freed x explicit grow(k) / growth forced by a request: live regions keep
+    their bytes exactly and the storage has exactly the new capacity."""
+    if cap < 1:
+        return
+    tilings = [(cap,)] + [(a, cap - a) for a in range(1, cap)] + \
+              [(a, b2, cap - a - b2) for a in range(1, cap) for b2 in range(1, cap - a)]
+    for sizes in tilings:
+        for mask in range(1 << len(sizes)):
+            for how in ("grow0", "grow1", "grow5", "alloc"):
+                b = mkbuf(kind, cap)
+                offs = [b.allocate(sz, align=False) for sz in sizes]
+                bufmon.poke(b, 0, bytes(((i * 29 + 11) & 0xFF) for i in range(cap)))
+                live = []
+                for j, (o, sz) in enumerate(zip(offs, sizes)):
+                    if mask >> j & 1:
+                        b.free(o, sz)
+                    else:
+                        live.append((o, sz))
+                before = bufmon.raw_bytes(b)
+                if how == "alloc":
+                    b.allocate(cap + 1, align=False)
+                else:
+                    b.grow(int(how[4:]))
+                w.count("primitive_calls")
+                w.count("grow_relocations")
+                after = bufmon.raw_bytes(b)
+                case = dict(kind=kind, cap=cap, regions=list(zip(offs, sizes)), freed_mask=mask, how=how)
+                expect(w, len(after) == b.capacity and b.capacity >= cap, "grow-storage-size-differs-from-capacity",
+                       f"len(storage)={len(after)} capacity={b.capacity}", case)
+                for o, sz in live:
+                    if after[o:o + sz] != before[o:o + sz]:
+                        expect(w, False, "grow-lost-live-bytes", f"live region [{o},{o + sz}) changed by {how}", case)
+                        break
+                else:
+                    w.count("explicit_checks")
+
+
+G["grow_storage"] = g_grow_storage
+
+
 def run_case(w, rng):
     shard, i = (int(x) for x in w.case_seed.split("/")[-2:])
     idx = i * w.nshards + shard
@@ -285,3 +329,10 @@ def run_case(w, rng):
 def teardown(w):
     for k, v in bufmon.contract_evals.items():
         w.count("contract:" + k, v)
+
+
+from xv.props import alloc_common as ac
+def extra_workload(w):
+    """the repository's own test-suite run under the same monitors (shard 0 only)"""
+    if True:
+        ac.suite_under_monitors(w)
